@@ -35,6 +35,7 @@
 #define MAXCAP 4
 #endif
 
+extern "C" { void irx_history_exempt(const void *, size_t); int irx_history_havoc(void); }
 namespace {
   double U[MAXDRAWS]; // the deviate sequence (symbolic), shared by both runs
   bool U_set[MAXDRAWS];
@@ -43,6 +44,7 @@ namespace {
   // momenta of stub-created particles: symbolic but identical in both runs
   double PM[3 * 12];
   int stub_idx;
+  int choice[16]; bool choice_set[16];   // transition outcomes (harness-side nondeterministic choices, identical in both runs)
 
   struct Prng : public bxdecay0::i_random {
     double operator()() override
@@ -92,7 +94,6 @@ namespace bxdecay0 {
   static void trans(event & ev, double tc, double & td)
   {
     td = tc;
-    static int choice[16]; static bool choice_set[16];
     int k = stub_idx < 16 ? stub_idx : 15;
     if (!choice_set[k]) { choice[k] = nondet_int() & 1; choice_set[k] = true; }
     if (choice[k]) add(ev, GAMMA, td);
@@ -155,6 +156,13 @@ extern "C" void harness()
   int choice_seed_marker = 0; (void)choice_seed_marker;
   run_unit(e1, level);
 #ifdef TWO_RUNS
+  // history: whatever an arbitrary earlier use of the library may have left in writable, unguarded globals
+  // (a function-local `static int`, a file-scope cache ...) is made indeterminate before the second run;
+  // irx reports the first place where such a value decides a branch, indexes, or reaches the compared events
+  irx_history_exempt(U, sizeof U); irx_history_exempt(U_set, sizeof U_set); irx_history_exempt(PM, sizeof PM); irx_history_exempt(PM_set, sizeof PM_set);
+  irx_history_exempt(&draw_idx, sizeof draw_idx); irx_history_exempt(&stub_idx, sizeof stub_idx);
+  irx_history_exempt(choice, sizeof choice); irx_history_exempt(choice_set, sizeof choice_set);
+  (void)irx_history_havoc();
   // run 2: a fresh event object with ample capacity, same deviates and same stub outputs
   bxdecay0::event e2;
   e2.grab_particles().__ms_set_capacity(16);
